@@ -74,9 +74,14 @@ PROPS["C06"] = dict(
           Job("persist", 400, 10000, size=5, size_thorough=6, relevant=heads("pop", "pjson", "prebuild", "pfinish", "wfcheck"),
               nontrivial=lambda st: int(st.get("trips", 0)) >= 1 and int(st.get("nodes", 0)) >= 3, label="reimport"),
           Job("adf", 300, 10000, size=6, extra=("sem",), relevant=heads("adopt", "adump", "wfcheck"), nontrivial=lambda st: int(st.get("nodes", 0)) >= 5, label="bridge"),
-          Job("bdd", 2, 28, size=16, size_thorough=16, extra=("big",), relevant=heads(*OPS, "alltt", "dump", "wfcheck"),
-              nontrivial=lambda st: int(st.get("memo", 0)) > 65536, label="huge-stores", timeout=1800, cap=12, chunk_min=1)],
-    rule="random operation sequences (3-45 ops over 2-6 variables: var/const/not/and/or/imp/iff/xor/restrict on earlier results) on one shared Bdd; "
+          Job("bdd", 4, 60, size=17, size_thorough=18, extra=("big",), relevant=heads(*OPS, "alltt", "dump", "wfcheck"),
+              nontrivial=lambda st: int(st.get("memo", 0)) > 65536, label="huge-stores", timeout=1800, cap=28, chunk_min=1),
+          Job("bdd", 1, 1, size=22, size_thorough=23, extra=("exh",), relevant=heads(*OPS, "dump", "wfcheck", "classes", "alltt"),
+              nontrivial=lambda st: True, label="exhaustive-2-variables", timeout=1800),
+          Job("bdd", 0, 1, size=33, extra=("exh",), relevant=heads(*OPS, "dump", "wfcheck", "classes", "alltt"),
+              nontrivial=lambda st: True, label="exhaustive-3-variables", timeout=3600)],
+    rule="EXHAUSTIVE small scope (every sequence of 2 (thorough: 3) operations over 2 variables and, thorough, of 3 operations over 3 variables, operands = any earlier result or terminal); "
+         "random operation sequences (3-45 ops over 2-6 variables: var/const/not/and/or/imp/iff/xor/restrict on earlier results) on one shared Bdd; "
          "after each sequence the real node table is dumped and checked by the verified wfCheck, handle equality of ALL issued handles is compared with "
          "truth-table equality, and the table is compared index by index with the model's; non-trivial = distinct sequence creating >= 3 inner nodes",
     assumptions=["Bdd::node called directly with unordered children is outside 'diagram-building operations' (precondition)",
@@ -91,8 +96,12 @@ PROPS["C07"] = dict(
     technique="Lean 4 proof (refinement of an abstract Boolean-function spec by the memoised ite/restrict store) + correspondence check",
     jobs=[Job("bdd", 1500, 60000, size=6, size_thorough=7,
               relevant=heads(*OPS, "alltt", "dump"), nontrivial=nt_bdd),
-          Job("bdd", 2, 28, size=16, size_thorough=16, extra=("big",), relevant=heads(*OPS, "alltt", "dump"),
-              nontrivial=lambda st: int(st.get("memo", 0)) > 65536, label="huge-stores", timeout=1800, cap=12, chunk_min=1)],
+          Job("bdd", 4, 60, size=17, size_thorough=18, extra=("big",), relevant=heads(*OPS, "alltt", "dump"),
+              nontrivial=lambda st: int(st.get("memo", 0)) > 65536, label="huge-stores", timeout=1800, cap=28, chunk_min=1),
+          Job("bdd", 1, 1, size=23, extra=("exh",), relevant=heads(*OPS, "alltt", "dump"),
+              nontrivial=lambda st: True, label="exhaustive-2-variables", timeout=1800),
+          Job("bdd", 0, 1, size=33, extra=("exh",), relevant=heads(*OPS, "alltt", "dump"),
+              nontrivial=lambda st: True, label="exhaustive-3-variables", timeout=3600)],
     rule="same sequences as C06; after every operation the truth table obtained by walking the REAL node table from the returned handle is compared with the "
          "specification's truth table (TT layer, independent of diagrams) and the handle with the proved model's handle; at the end every earlier handle is re-evaluated; "
          "non-trivial = distinct sequence creating >= 3 inner nodes",
@@ -377,8 +386,13 @@ PROPS["C18"] = dict(
                "clauses that belong to the closure's contract with the search (unit flip, progress, update flag) are reported on the correspondence channel, not as C18 failures.",
     technique="Lean 4 proof (history induction on the bucketed store; line-by-line model proved equal to the verified one) + correspondence check + verified brute-force specification applied to the implementation's answers",
     jobs=[Job("ng", 20000, 400000, size=6, size_thorough=8,
-              relevant=heads("ngadd", "ngconcl", "ngclosure", "ngdump", "nogoodcheck"), nontrivial=nt_ng)],
-    rule="histories of 0-8 add_ng over 0-6 variables (empty, full-length, nested, duplicate, subsuming, complementary nogoods), all three modes with switches mid-history, interpretations incl. "
+              relevant=heads("ngadd", "ngconcl", "ngclosure", "ngdump", "nogoodcheck"), nontrivial=nt_ng),
+          Job("ng", 1, 1, size=23, size_thorough=24, extra=("exh",), relevant=heads("ngadd", "ngconcl", "ngclosure", "ngdump", "nogoodcheck"),
+              nontrivial=lambda st: True, label="exhaustive-2-variables", timeout=1800),
+          Job("ng", 0, 1, size=33, extra=("exh",), relevant=heads("ngadd", "ngconcl", "ngclosure", "ngdump", "nogoodcheck"),
+              nontrivial=lambda st: True, label="exhaustive-3-variables", timeout=3600)],
+    rule="EXHAUSTIVE small scope: every sequence of <= 3 (thorough: <= 4) nogoods over 2 variables and (thorough) of <= 3 nogoods over 3 variables, the empty nogood included, under each mode, "
+         "queried with every interpretation (conclusions and closure); and random histories of 0-8 add_ng over 0-6 variables (empty, full-length, nested, duplicate, subsuming, complementary nogoods), all three modes with switches mid-history, interpretations incl. "
          "matching / almost-matching / total ones; store dump after every add, conclusions and conclusion_closure answers judged by the brute-force specification and compared with the model; "
          "non-trivial = distinct history with >= 2 nogoods and >= 1 conflict or conclusion",
     assumptions=["nogoods/interpretations are vectors of the store's width (add_ng panics beyond: stated precondition)"],
